@@ -699,6 +699,62 @@ fn recvseq_case(rc: &RCfg, from: Option<IpAddr>, list: &[Vec<u8>], unrewritten_d
     out.case(&input, &obs.join("|"), &if fails.is_empty() { "ok".to_string() } else { format!("FAIL:{}", fails.join(";")) });
 }
 
+
+/// the array of pending TCP probe sockets over time: ops = S<sp>.<dp>.<outcome> (dispatch a probe whose socket will have this
+/// outcome), T<ns> (time passes), R (recv_probe).  The observable is the result of every op.
+fn tcpseq_case(rc: &RCfg, timeout_ms: u64, ops: &[String], out: &mut Out) {
+    // every S / R op is recorded with the clock reading at which it ran (receiving consumes the read timeout)
+    let stamped = std::cell::RefCell::new(Vec::<String>::new());
+    crate::vclock::enable(crate::vclock::BASE_NS);
+    let r = catch_unwind(AssertUnwindSafe(|| {
+        sim::reset();
+        let mut cfg = rc.channel_config(84, 0, 33434);
+        cfg.tcp_connect_timeout = Duration::from_millis(timeout_ms);
+        let mut ch = match Channel::<SimSocket>::connect(&cfg) { Ok(c) => c, Err(e) => return vec![format!("err:{}", ErrK::of(&e).tok())] };
+        let mut v = vec![];
+        for op in ops {
+            let op = op.split('@').next().unwrap().to_string();
+            let op = &op;
+            stamped.borrow_mut().push(if op.starts_with('T') { op.clone() } else { format!("{op}@{}", crate::vclock::now() - crate::vclock::BASE_NS) });
+            match op.as_bytes()[0] {
+                b'S' => {
+                    let t: Vec<&str> = op[1..].split('.').collect();
+                    sim::with(|w| w.tcp_outcomes.push_back(parse_outcome(t[2])));
+                    let r = ch.send_probe(Probe {
+                        sequence: Sequence(0), identifier: TraceId(0), src_port: Port(t[0].parse().unwrap()), dest_port: Port(t[1].parse().unwrap()), ttl: TimeToLive(3),
+                        round: RoundId(0), sent: std::time::SystemTime::now(), flags: Flags::empty(),
+                    });
+                    v.push(match r { Ok(()) => "sent".to_string(), Err(e) => format!("err:{}", ErrK::of(&e).tok()) });
+                }
+                b'T' => { crate::vclock::advance(op[1..].parse().unwrap()); v.push("t".to_string()); }
+                _ => { let (o, _) = observe(catch_unwind(AssertUnwindSafe(|| ch.recv_probe()))); v.push(o); }
+            }
+        }
+        v
+    }));
+    crate::vclock::disable();
+    let input = format!("tcpseq {} {timeout_ms} {}", rc.render(), stamped.borrow().join(","));
+    let obs = match r { Ok(v) => v, Err(_) => vec!["fault:panic".to_string()] };
+    // oracle (model free): a response names the ports of a probe that was dispatched with a non-pending outcome and not yet
+    // reported; no probe is reported twice
+    let mut fails = vec![];
+    let mut reported: Vec<(String, String)> = vec![];
+    let sent: Vec<(String, String, String)> = ops.iter().filter(|o| o.starts_with('S')).map(|o| { let o = o.split('@').next().unwrap(); let t: Vec<&str> = o[1..].split('.').collect(); (t[0].to_string(), t[1].to_string(), t[2].to_string()) }).collect();
+    for o in &obs {
+        if o == "fault:panic" { fails.push("C04:panic:tcp_socket_array".to_string()); }
+        let t: Vec<&str> = o.split('/').collect();
+        if let Some(k) = t.iter().position(|x| *x == "t") {
+            if t.len() > k + 3 {
+                let key = (t[k + 2].to_string(), t[k + 3].to_string());
+                if reported.contains(&key) { fails.push(format!("C02:tcp_probe_{}_{}_reported_twice", key.0, key.1)); }
+                if !sent.iter().any(|(sp, dp, oc)| *sp == key.0 && *dp == key.1 && oc != "pending") { fails.push(format!("C02:tcp_response_for_ports_{}_{}_that_no_answered_probe_used", key.0, key.1)); }
+                reported.push(key);
+            }
+        }
+    }
+    out.case(&input, &obs.join("|"), &if fails.is_empty() { "ok".to_string() } else { format!("FAIL:{}", fails.join(";")) });
+}
+
 pub fn run(args: &Args, out: &mut Out) {
     if let Some(path) = &args.replay {
         for l in crate::replay_inputs(path) {
@@ -712,6 +768,7 @@ pub fn run(args: &Args, out: &mut Out) {
                     let dub4 = rc.proto == Protocol::Udp && !rc.v6() && t.get(4).copied() == Some("dublin4");
                     recvseq_case(&rc, from, &list, dub4, out);
                 }
+                "tcpseq" => tcpseq_case(&RCfg::parse(t[1]), t[2].parse().unwrap(), &t[3].split(',').map(ToString::to_string).collect::<Vec<_>>(), out),
                 "sockerr" => sockerr_case(&RCfg::parse(t[1]), t[2], out),
                 "tcpsock" => tcp_case(&RCfg::parse(t[1]), &parse_outcome(t[2]), t[3].parse().unwrap(), t[4].parse().unwrap(), t.get(5).copied().unwrap_or("-"), out),
                 "probe" => probe_case(&RCfg::parse(t[1]), t[2].parse().unwrap(), t[3].parse().unwrap(), t[4].parse().unwrap(), t[5].parse().unwrap(), t[6].parse().unwrap(),
@@ -937,6 +994,47 @@ pub fn run(args: &Args, out: &mut Out) {
             }
         }
         out.stat("multi_datagram_sequences", &n.to_string());
+    }
+
+    // ---- the array of pending TCP probe sockets over time (dispatch, time passing, receive), both families
+    {
+        let mut n = 0usize;
+        for c in all.iter().filter(|c| c.proto == Protocol::Tcp) {
+            for _ in 0..(if thorough { 300 } else { 30 }) {
+                let rc = rand_rcfg(&mut rng, c);
+                let timeout_ms = *rng.pick(&[1u64, 5, 1000]);
+                let mut ops = vec![];
+                let mut port = 33000u16 + rng.below(100) as u16;
+                for _ in 0..(3 + rng.below(12)) {
+                    match rng.below(5) {
+                        0 | 1 => {
+                            let peer = if c.v6 { "20010db8000000000000000000000009" } else { "0a000009" };
+                            let oc = match rng.below(6) { 0 => "pending".to_string(), 1 => "refused".to_string(), 2 => format!("conn:{peer}"), 3 => format!("unreach:{peer}"), 4 => "other".to_string(), _ => "pending".to_string() };
+                            port += 1;
+                            let (sp, dp) = match c.pd { PortDirection::FixedSrc(s) => (s.0, port), _ => (port, 80) };
+                            ops.push(format!("S{sp}.{dp}.{oc}"));
+                        }
+                        2 => ops.push(format!("T{}", *rng.pick(&[1_000u64, 900_000, 1_000_000, 4_999_999, 5_000_000, 6_000_000, 2_000_000_000]))),
+                        _ => ops.push("R".to_string()),
+                    }
+                }
+                ops.push("R".to_string());
+                ops.push("R".to_string());
+                tcpseq_case(&rc, timeout_ms, &ops, out);
+                n += 1;
+            }
+        }
+        // the array is bounded: 256 pending probes, the 257th is a capacity error
+        for v6 in [false, true] {
+            if let Some(c) = all.iter().find(|c| c.proto == Protocol::Tcp && c.v6 == v6) {
+                let rc = rand_rcfg(&mut rng, c);
+                let mut ops: Vec<String> = (0..258).map(|i| format!("S5000.{}.pending", 34000 + i)).collect();
+                ops.push("R".to_string());
+                tcpseq_case(&rc, 100_000, &ops, out);
+                n += 1;
+            }
+        }
+        out.stat("tcp_socket_array_sequences", &n.to_string());
     }
 
     // ---- (ii) fully random bytes (random lengths, plus ICMP-looking prefixes)
